@@ -127,34 +127,50 @@ def replay_src(o):
         return {"reproduced": None, "detail": "no calldata in the solver model"}
     cd = T.calldata_from_model(m)
     val = m.get("callvalue", 0)
-    st, data = T.native_call(r["src"], r["cfg"], cd, value=val, evm_version=r["evm"])
+    st, data, logs = T.native_call(r["src"], r["cfg"], cd, value=val, evm_version=r["evm"], with_logs=True)
     env = Mx.Env()
     try:
         spec = SS.Interp(r["src"], T.settings_for(r["cfg"], r["evm"]), env).run_contract()
     except SS.Unsupported as e:
         return {"reproduced": None, "detail": f"native: {st}; reference semantics unavailable: {e}"}
     sub = T.concrete_subst(env, cd, val) + [(env.storage0, z3.K(Mx.W, BV(0))), (env.transient0, z3.K(Mx.W, BV(0)))]
+
+    def cbytes(d):
+        n = z3.simplify(z3.substitute(d["len"], *sub))
+        if not z3.is_bv_value(n) or n.as_long() > 4096:
+            return None
+        bs = b""
+        for i in range(n.as_long()):
+            b = z3.simplify(z3.substitute(Mx.data_byte(d, i), *sub))
+            if not z3.is_bv_value(b):
+                return None
+            bs += bytes([b.as_long()])
+        return bs
+
     exp = None
+    exp_logs = None
     for s in spec:
+        if getattr(s, "optional", False):
+            continue
         c = z3.simplify(z3.substitute(s.pc, *sub))
         if z3.is_true(c):
             if s.status == "return":
-                n = z3.simplify(z3.substitute(s.data["len"], *sub)).as_long()
-                bs = b""
-                ok = True
-                for i in range(n):
-                    b = z3.simplify(z3.substitute(Mx.data_byte(s.data, i), *sub))
-                    if not z3.is_bv_value(b):
-                        ok = False
-                        break
-                    bs += bytes([b.as_long()])
-                exp = ("return", bs if ok else None)
+                exp = ("return", cbytes(s.data))
             else:
                 exp = ("return", b"") if s.status == "stop" else ("revert", None)
-    det = f"cfg={r['cfg']} calldata=0x{cd.hex()[:600]} value={val} (fresh deployment, zero storage): native -> {st} {data.hex() if st == 'return' else ''}; reference semantics -> {exp}"
+            if s.status in ("return", "stop"):
+                exp_logs = []
+                for ev in s.world.trace:
+                    if ev[0] != "log":
+                        continue
+                    tps = [z3.simplify(z3.substitute(t, *sub)) for t in ev[1]]
+                    exp_logs.append(([t.as_long() if z3.is_bv_value(t) else None for t in tps], cbytes(ev[2])))
+    det = f"cfg={r['cfg']} calldata=0x{cd.hex()[:600]} value={val} (fresh deployment, zero storage): native -> {st} {data.hex() if st == 'return' else ''} logs={[(t, d.hex()) for t, d in (logs or [])]}; reference semantics -> {exp} logs={[(t, d.hex() if d is not None else None) for t, d in (exp_logs or [])]}"
     if exp is None:
         return {"reproduced": None, "detail": det + " (source outcome depends on context symbols the replay does not fix)"}
     bad = (exp[0] != st) or (st == "return" and exp[1] is not None and exp[1] != data)
+    if not bad and st == "return" and logs is not None and exp_logs is not None and all(d is not None and None not in t for t, d in exp_logs):
+        bad = [(list(t), d) for t, d in logs] != [(list(t), d) for t, d in exp_logs]
     return {"reproduced": True if bad else None, "detail": det}
 
 
